@@ -81,6 +81,7 @@ def pfc_grid(tier):
     # -- alignment edge cases, no loss (2 pages are enough) --
     base = dict(NPAGES=2, PPP=2)
     add(NB=2, SZ0=33, SZ1=7, **base)                       # second BS in the last byte of packet 1 (offset 38)
+    add(NB=2, SZ0=32, PAD1=1, SZ1=7, STREAM=11, CI0=7, **base)   # one filler, then BS in the last byte (kills "filler scan ends a byte early")
     add(NB=2, SZ0=5, PAD1=26, SZ1=9, **base)               # BS at offset 36: structure header split 2 + 2 across packets
     add(NB=3, SZ0=29, SZ1=0, SZ2=12, **base)               # structure header of a zero size block ends with the packet; BP = 0 next
     add(NB=2, SZ0=90, SZ1=4, PAD0=3, MAG=0, PG=0x1C, STREAM=0, CI0=15, CBITS=5, **base)   # block over 3 packets and 2 pages, magazine 8
@@ -191,7 +192,7 @@ def obligations(tier, seed):
            defines={"KNOWN_PFC_LAST_PACKET_LOSS": None, "KNOWN_PFC_BLOCK_END_OVERREAD": None},
            assumes=["every quantity that steers the demux is a grid constant (sizes, paddings, geometry, app ids, page, stream, CI, control bits, lost packet); symbolic: block bytes, "
                     "header text, unrelated packet bodies", "unrelated traffic has decodable address bytes and is not a page header (a header of another magazine ends our page in this demux: serial mode assumption)"],
-           bounds="quick: 8 layouts (BS in last byte of a packet, structure header split 2+2, block ending with the packet, zero size block, block over 3 packets / 2 pages, magazine 8, "
+           bounds="quick: 9 layouts (BS in last byte of a packet, structure header split 2+2, block ending with the packet, zero size block, block over 3 packets / 2 pages, magazine 8, "
                   "4 loss cases); thorough: + block size 0..90 sweep x start offsets, every single lost packet for 4 layouts",
            outside="block sizes > 128 in SEQ (2047 limit: pfc_step only); blocks after the gap on the SAME page are also discarded by this demux (waits for the next page header) - "
                    "accepted as 'damaged block discarded, delivery resumes'; loss of the last packet of a page while a block is in progress (defect, pfc_last_packet_loss)",
@@ -217,6 +218,9 @@ def obligations(tier, seed):
            assumes=["representation invariant pfc_inv (established by _vbi_pfc_demux_init: asserted in pfc_seq; preserved: this obligation)"],
            bounds="one step; histories of any length by induction", unwind=43,
            unwindset={"_vbi_pfc_demux_decode.1": 19, "_vbi_pfc_demux_decode.0": 40, "c15_memcpy.0": 40, "c15_memcpy.1": 40},
-           reach=["end", "unrelated", "delivered", "delivered2"], solver="cadical", timeout=1500, mem_gb=12, vin_size=2400, **pfc),
+           reach=["end", "unrelated", "delivered", "delivered2"], solver="cadical", timeout=1500, mem_gb=12, vin_size=2400,
+           # vbi_unham16p shifts the (negative) Hamming error code left: GNU C defined, ignored by the runner, but cbmc 6 treats the failed
+           # check as fatal and reports what lies behind it as UNKNOWN -> shift check off for this obligation (no data dependent shift distance in the unit)
+           noflags=["--undefined-shift-check"], **pfc),
     ]
     return obs
